@@ -4,6 +4,7 @@ Slices: routing (all 4 683 surjective type maps of six particles onto K = 1..6 s
 (grouping by |q|, boxes with equal / unequal edges, 2D/3D, 1-3 frames, tiny systems), the default wave-vector set
 (qrange x box x onlypositive, plus choosewavevector itself for every numofq up to a bound), and the output files."""
 import itertools
+import math
 import os
 
 import numpy as np
@@ -11,7 +12,9 @@ import numpy as np
 from mc import alphabets as A
 from mc.harness import Result, Sub
 from mc.ref import c03x as X3
+from mc.ref import c03y as Y3
 from mc.ref import c04x as X
+from mc.ref import c04y as Y
 from mc.ref.base import mk_snaps
 from mc.ref.c04c13 import (choose_ref, default_qset_ref, expected_columns, group_mean_interval, group_norms,
                            numofq_ref, sq_loops)
@@ -33,6 +36,16 @@ ASSUMPTIONS = [
     "explicit wave vectors are given as an integer ndarray (int64 or int32), C- or Fortran-ordered positions",
     "call sequences: results must not depend on earlier calls or on other live sq objects; 'fresh state' = library modules "
     "re-imported in a forked child",
+    "storage forms: positions are a real (n, d) ndarray - float64 or float32 (the stored float32 values are the positions), any strides; "
+    "species are an integer-valued ndarray of a signed / unsigned integer or float dtype (the GSD reader hands out uint32); explicit wave "
+    "vectors are an integer ndarray (int64 / int32 / int16, any memory order - the documentation says 'NDArray of int'; lists and float "
+    "arrays are not demanded); the box is float64 (a float32 box limits q = 2 pi n / L to 1e-7 relative, which the 1e-6 rounding of "
+    "the q column does not survive - not checked)",
+    "species classes: all frames share the composition (N_a is read from frame 0); the assignment of the species to the ids may change from "
+    "frame to frame (sorted blocks in some frames, interleaved in others)",
+    "unwrapped coordinates (particles displaced by whole box vectors) leave exp(-i q.r) unchanged for q = 2 pi n / L",
+    "S(q) for integer wave vectors does not depend on the unit of length as long as the documented 6-decimal rounding of the q column keeps different "
+    "|q| apart (box <= ~1e3; a box of 1e9 rounds every q to 0, which the statement's rounding clause allows)",
 ]
 
 # slices whose unchanged-tree behaviour violates the property and is not yet repaired (none at present)
@@ -190,6 +203,153 @@ def gen_csv(tier, seed):
                         yield dict(base, mode="explicit", qlist="six", q=qlist("six", d))
                         if box == "sqr":
                             yield dict(base, mode="default", qrange=2.0, onlypositive=False)
+
+
+# ------------------------------------------ slice G: storage forms, exact values, species classes, unwrapped
+FORM_KEYS = ["pos", "tform", "qform"]
+FORM_DOM = {"pos": Y3.POS_FORMS, "tform": Y3.TYPE_FORMS, "qform": Y.Q_FORMS}
+GSD_FORM = {"pos": "f32view", "tform": "uint32", "qform": "int32"}  # read_gsd positions / species, choosewavevector's int32 table
+FORM_TRAJ = [(1, "const"), (2, "sorted_first"), (3, "sorted_later"), (2, "const")]
+
+
+def form_vectors(maxdev):
+    out = []
+    for combo in itertools.product(*(FORM_DOM[k] for k in FORM_KEYS)):
+        fv = dict(zip(FORM_KEYS, combo))
+        if sum(1 for k in FORM_KEYS if fv[k] != FORM_DOM[k][0]) <= maxdev:
+            out.append(fv)
+    if GSD_FORM not in out:
+        out.append(dict(GSD_FORM))
+    return out
+
+
+def gen_forms(tier, seed):
+    quick = tier == "quick"
+    fvs = form_vectors(1 if quick else 2)
+    for d in (3, 2):
+        for box in ("sqr", "uneq"):
+            L = BOX[d][box]
+            for ip, pset in enumerate(("dyadic", "generic", "unwrapped")):
+                for it, (F, tclass) in enumerate(FORM_TRAJ):
+                    for K in ((1, 2, 3, 4, 5) if quick else (1, 2, 3, 4, 5, 6)):
+                        if K == 1 and tclass != "const":
+                            continue
+                        for iq, ql in enumerate(("six", "neg")):
+                            if quick and (ip + it + K + iq) % 2:
+                                continue
+                            for fv in fvs:
+                                if pset == "unwrapped" and quick and fv not in (fvs[0], GSD_FORM, dict(fvs[0], pos="f32")):
+                                    continue
+                                yield dict({"slice": "forms", "d": d, "box": box, "L": L, "pset": pset, "F": F, "tclass": tclass, "K": K,
+                                            "qlist": ql, "q": qlist(ql, d), "seed": seed}, **fv)
+            # narrow integer storage whose SQUARES overflow (int8: |n| >= 12, uint8: n >= 16, int16: n >= 182 or a sum of squares > 32767)
+            for name in Y.BIG_Q:
+                qv, qforms = Y.big_q(name, d)
+                for K in (1, 2, 3) if quick else (1, 2, 3, 4, 5, 6):
+                    for qform in qforms:
+                        for pset in ("generic", "dyadic"):
+                            yield {"slice": "forms", "d": d, "box": box, "L": L, "pset": pset, "F": 1 if pset == "generic" else 2, "tclass": "const", "K": K,
+                                   "qlist": name, "q": qv, "seed": seed, "pos": "f64", "tform": "int64", "qform": qform}
+
+
+def forms_input(case):
+    """(frames as given to the library, frames the reference may use instead (wrapped), species per frame)"""
+    d, L, F, K = case["d"], case["L"], case["F"], case["K"]
+    n = 7
+    base = Y.dyadic_box_points(d, L) if case["pset"] == "dyadic" else np.array(generic(case["seed"], n, L, f"sqF{d}{case['box']}"))
+    wrapped = [base] + [np.array(generic(case["seed"], n, L, f"sqF{d}{case['box']}fr{f}")) for f in range(1, F)]
+    given = [Y.unwrap(p, L, pattern=f) for f, p in enumerate(wrapped)] if case["pset"] == "unwrapped" else wrapped
+    ts = Y3.class_types(n, K, F, case["tclass"]) if K <= 5 else [[1, 2, 3, 4, 5, 6, 1]] * F
+    return given, wrapped, ts
+
+
+def run_forms(case):
+    from PyMatterSim.static.sq import sq
+
+    R = Result()
+    d, F, K = case["d"], case["F"], case["K"]
+    L = [float(x) for x in case["L"]]
+    given, wrapped, ts = forms_input(case)
+    stored = [Y3.store_positions(p, case["pos"]) for p in given]
+    vals = [Y3.stored_values(p) for p in stored]
+    qint = [list(v) for v in case["q"]]
+    sig = {"slice": "forms", "K": K, "d": d, "box": case["box"], "F": F, "mode": "explicit", "pset": case["pset"], "tclass": case["tclass"],
+           "pos": case["pos"], "types": case["tform"], "qform": case["qform"]}
+    # unwrapped placements: the table is the one of the wrapped placement; float32 forms: the stored values are the positions
+    exact_store = case["pos"] in ("f64", "strided")
+    src = wrapped if exact_store else vals
+    ref, qn = sq_loops([np.asarray(p, float).tolist() for p in src], L, ts, qint)
+    groups = group_norms(qn, 6)
+    if groups is None:
+        return R.screen()
+    types = ts[0]
+    cols = expected_columns(types, "Sq")
+    tst = [Y3.store_types(t, case["tform"]) for t in ts]
+    snaps = Y3.raw_snaps(stored, [np.diag(L)] * F, tst)
+    qarr = Y3.store_int(qint, case["qform"])
+    p0 = [np.array(p, copy=True) for p in stored]
+    t0 = [np.array(t, copy=True) for t in tst]
+    res = sq(snaps, qvector=qarr).getresults()
+    R.elem = len(cols) * len(groups)
+    if not compare(R, res, cols, groups, ref, types, sig):
+        return R
+    for s, pb, tb in zip(snaps.snapshots, p0, t0):
+        if not np.array_equal(s.positions, pb) or s.positions.dtype != pb.dtype or not np.array_equal(s.particle_type, tb):
+            R.fail("snapshot positions / species modified", sig=dict(sig, clause="input_modified"))
+    if not np.array_equal(qarr, np.array(qint)) or qarr.dtype != Y3.store_int(qint, case["qform"]).dtype:
+        R.fail("caller's wave-vector array modified", sig=dict(sig, clause="input_modified"))
+    R.outcome({c: res[c].values for c in ["q"] + cols}, nd=6)
+    R.nontrivial = len(groups) >= 2 and float(np.ptp(res["Sq"].values)) > 1e-6
+    return R
+
+
+# ------------------------------------------------------------------- slice H: absolute scale (dilated box)
+DIL_SCALES = {"2^-33": 2.0 ** -33, "2^+6": 2.0 ** 6}  # sq() rounds its q column to 6 decimals: a box of 1e9 would round every q to 0
+
+
+def gen_dilated(tier, seed):
+    for d in (3, 2):
+        for box in ("sqr", "uneq"):
+            L = BOX[d][box]
+            for ql in (("six", "neg") if tier == "quick" else ("six", "neg", "shell1")):
+                for K in ((1, 2, 3, 5) if tier == "quick" else (1, 2, 3, 4, 5, 6)):
+                    for F in (1, 2):
+                        for sname in DIL_SCALES:
+                            yield {"slice": "dilated", "d": d, "box": box, "L": L, "qlist": ql, "q": qlist(ql, d), "K": K, "F": F, "scale": sname, "seed": seed}
+
+
+def run_dilated(case):
+    """differential: the dilated call against the undilated one (which C04.explicit compares with the definition).  Integer wave vectors:
+    every phase q.r is the same number, so every S column must agree bit for bit; the q column is 2 pi |n / L| of the dilated box."""
+    from PyMatterSim.static.sq import sq
+
+    R = Result()
+    d, K, F = case["d"], case["K"], case["F"]
+    sc = DIL_SCALES[case["scale"]]
+    L = np.array(case["L"], float)
+    frames = [np.array(generic(case["seed"], 7, case["L"], f"sqDL{d}{case['box']}{f}")) for f in range(F)]
+    ts = Y3.class_types(7, K, F, "const") if K <= 5 else [[1, 2, 3, 4, 5, 6, 1]] * F
+    qarr = np.array(case["q"], dtype=int)
+    sig = {"slice": "dilated", "K": K, "d": d, "box": case["box"], "F": F, "mode": "explicit", "scale": case["scale"]}
+    rb = sq(mk_snaps(frames, np.diag(L), [np.array(t) for t in ts]), qvector=qarr.copy()).getresults()
+    rd = sq(mk_snaps([f * sc for f in frames], np.diag(L * sc), [np.array(t) for t in ts]), qvector=qarr.copy()).getresults()
+    cols = expected_columns(ts[0], "Sq")
+    if list(rd.columns) != list(rb.columns) or len(rd) != len(rb):
+        R.fail(f"table changes shape with the unit of length: {len(rd)} rows {list(rd.columns)} vs {len(rb)} rows", sig=dict(sig, clause="grouping"),
+               sub="C04.grouping")
+        return R
+    for c in cols:
+        if not np.allclose(rd[c].values, rb[c].values, rtol=0, atol=1e-12):  # means of 6-decimal numbers over the same groups
+            k = int(np.argmax(np.abs(rd[c].values - rb[c].values)))
+            R.fail(f"column {c} changes with the unit of length: {rd[c].values[k]!r} vs {rb[c].values[k]!r}", sig=dict(sig, clause="column", col=c),
+                   exp=rb[c].values, obs=rd[c].values)
+    qn = np.sort(np.unique(np.round(np.linalg.norm(qarr.astype(float) * (2 * math.pi / (L * sc)), axis=1), 6)))
+    if not np.allclose(rd["q"].values, qn if len(qn) == len(rd) else rb["q"].values / sc, rtol=1e-9, atol=1.0000001e-6):
+        R.fail("q column is not 2 pi |n / L| of the dilated box", sig=dict(sig, clause="grouping"), sub="C04.grouping", exp=qn, obs=rd["q"].values)
+    R.elem = len(cols) * len(rb)
+    R.outcome({c: rd[c].values for c in cols}, nd=6)
+    R.nontrivial = len(rb) >= 2 and float(np.ptp(rb["Sq"].values)) > 1e-6
+    return R
 
 
 # ----------------------------------------------------------------------------------- slice E: scale
@@ -673,6 +833,22 @@ def subs(tier, seed):
                  "with onlypositive False/True/axis; int32/int64 lists, C/Fortran-ordered positions, output files; EVERY |q| row of EVERY "
                  "column against a vectorised density-mode sum (rounded-interval oracle), grouping, sum rule, files",
             bounds={"N": SCALE_N[tier], "nq": SCALE_NQ[tier], "K": [1, 5], "frames": [1, 3]}),
+        Sub("C04.forms", gen_forms, run_forms,
+            rule="STORAGE FORMS, exact values, species classes, unwrapped coordinates: positions {float64, float32, strided float64 view, float32 "
+                 "column slice} x species dtype {int64, int32, float64, uint32} x wave-vector table {int64, int32, int16, Fortran-ordered int32, "
+                 "strided int64 view}; lists with components up to 16 / 300 stored as int8 / uint8 / int16 / uint16 (their squares overflow the storage type); " + ("every form vector with <= 1 deviation" if tier == "quick" else "every form vector with <= 2 deviations")
+                 + " from (float64, int64, int64) plus the GSD-reader combination (float32 slice, uint32, int32); x {2D,3D} x {Lx=Ly, unequal} x "
+                 "point sets {seven points at DYADIC fractions of the box: one at the origin, on the faces x = L_x, y = 0, z = L_z, two coincident; "
+                 "seven generic points; the generic points displaced by whole box vectors n L, n in {0,+2,-3,+4}} x trajectories {1 frame; 2 frames, "
+                 "species in sorted blocks in frame 0 and interleaved later; 3 frames, interleaved in frame 0 and sorted later; 2 frames, same species} "
+                 "x K = 1.." + ("5" if tier == "quick" else "6") + " x two wave-vector lists" + (" (checkerboard half of the product)" if tier == "quick" else "")
+                 + "; loop reference on exactly the stored values (wrapped placement for the displaced points), rounded-interval oracle, grouping, "
+                 "sum rule, inputs unchanged",
+            bounds={"form_deviations": 1 if tier == "quick" else 2, "K": [1, 5 if tier == "quick" else 6]}),
+        Sub("C04.dilated", gen_dilated, run_dilated,
+            rule="ABSOLUTE SCALE, differential: positions and box multiplied by 2^-33 and 2^+6 (integer wave vectors, so every phase is the same number): every "
+                 "S column equal to the one of the undilated call, same |q| groups, q column = 2 pi |n / L| of the dilated box; {2D,3D} x boxes x lists x K x frames",
+            bounds={"scales": list(DIL_SCALES)}),
         Sub("C04.sequence", gen_sequence, run_sequence,
             rule="explicit-state search over CALL SEQUENCES of sq: all words of length <= " + ("2" if tier == "quick" else "3") + f" over {len(SEQ_LETTERS)} "
                  "letters (dimension, box, qrange, onlypositive / explicit list, composition; several share numofq) in three modes (new object per "
